@@ -31,6 +31,8 @@ def mutants(prog):
         ("euler negates angles", L, "EulerRotation.tensor", "mat = U.euler_rotation_matrix(self.angles(), order=self.order)\n    if self.invert:\n        mat = mat.transpose(1, 2)", "angles = self.angles()\n    if self.invert:\n        angles = -angles\n    mat = U.euler_rotation_matrix(angles, order=self.order)", "class=EulerRotation D=3"),
         ("quaternion no transpose", L, "QuaternionRotation.tensor", "mat = mat.transpose(1, 2)", "mat = mat", "QuaternionRotation"),
         ("iso scaling negates", L, "IsotropicScaling.tensor", "scales = 1 / scales", "scales = -scales", "IsotropicScaling"),
+        ("iso scaling inverts the shared parameter tensor in place", L, "IsotropicScaling.tensor", "scales = 1 / scales", "scales = scales.reciprocal_()", "IsotropicScaling"),
+        ("aniso scaling inverts the shared parameter tensor in place", L, "AnisotropicScaling.tensor", "scales = 1 / scales", "scales = scales.reciprocal_()", "AnisotropicScaling"),
         ("aniso scaling ignores invert", L, "AnisotropicScaling.tensor", "if self.invert:", "if False:", "AnisotropicScaling"),
         ("shearing transposes", L, "Shearing.tensor", "mat = torch.inverse(mat)", "mat = mat.transpose(1, 2)", "Shearing"),
         ("homogeneous drops row", L, "HomogeneousTransform.tensor", "matrix = torch.inverse(matrix)", "matrix = matrix.transpose(1, 2)", "HomogeneousTransform"),
